@@ -126,6 +126,16 @@ def make_scenarios(rng, tier):
     for ci, ch in enumerate(chunks):
         nm = names[(ci * 3) % len(names):] + names[:(ci * 3) % len(names)]
         out.append(dict(kind="alphabet", files=files_for(ch, nm[:size + 1], True), agg="vuln" if ci % 2 else "file", relative=(ci % 3 == 2)))
+    # A2: names that START with a character spreadsheets treat as a formula (`=`, `+`, `-`, `@`) or that CONTAIN a percent-escape: they are file names, to be carried
+    #     unaltered by every format — relative spellings, where the name itself comes first (seeded changes C09-m11: the CSV writer prefixed such cells with an
+    #     apostrophe; C09-m12: the SARIF uri left `%` unescaped, so `My%20Script.py` decoded to another name)
+    special = ["@vendor.py", "-old.py", "=cmd.py", "+plus.py", "My%20Script.py", "caf%C3%A9.py", "100%.py", "%41.py"]
+    for ci in range(2):
+        out.append(dict(kind="alphabet", files=[(nm, (prog_b105("'pw%d'" % i) + prog_pickle()).encode()) for i, nm in enumerate(special[ci::2])] +
+                        [("zz_bad%20name.py", prog_syntax_error().encode())], agg="vuln" if ci else "file", relative=True))
+    out.append(dict(kind="alphabet", files=[("@vendor/mod.py", (prog_b105("'pw1'") + prog_pickle()).encode()), ("-old/util.py", prog_b105("'pw2'").encode()),
+                                            ("=x/a.py", prog_pickle().encode()), ("+y/b%41.py", prog_b105("'pw3'").encode()), ("@vendor/bad%20.py", prog_syntax_error().encode())],
+                    dirs=["@vendor", "-old", "=x", "+y"], agg="file", relative=True))
     # B: benign text + benign names: nothing may be attributed to any known finding
     out.append(dict(kind="benign", files=[("a.py", (prog_b105("'pw1'") + prog_pickle()).encode()), ("b.py", prog_sql().encode()),
                                           ("c.py", prog_popen_high("c").encode()), ("d.py", prog_b105("'pw2'").encode()),
@@ -211,9 +221,10 @@ def user_templates(rng, k):
         if "{" in t.replace("{{", ""):
             out.append(t)
     rng.shuffle(out)
+    # (integer-only specifications such as `{col:03d}` are rejected by bandit's own template validation, which substitutes strings: not judged here)
     # format specifications and conversions on known tags (outside the modelled fragment: judged against Python's own str.format; found by
     # tools/mutation — the `!` marker of the re-assembled template could be altered without any check noticing)
-    SPEC = ["{line:>6}|{severity!s:<8}|{test_id:^7}|{msg!r}", "{col:03d}:{line:x} {msg!a}", "{severity!r}{{{confidence:.3}}}", "{relpath!s:>40.40}|{range!s}"]
+    SPEC = ["{line:>6}|{severity!s:<8}|{test_id:^7}|{msg!r}", "{col!s:0>3}:{line!s:>4} {msg!a}", "{severity!r}{{{confidence:.3}}}", "{relpath!s:>40.40}|{range!s}"]
     return out[:k] + ["{severity}|{msg}"] + ([rng.choice(SPEC)] if k < 5 else SPEC)
 
 
@@ -230,15 +241,18 @@ def scan(sc, root):
     paths = []
     for name, data in sc["files"]:
         p = os.path.join(d, name)
+        os.makedirs(os.path.dirname(p), exist_ok=True)
         with open(p, "wb") as f:
             f.write(data)
         paths.append(name if sc["relative"] else p)
+    if sc.get("dirs"):
+        paths = list(sc["dirs"])          # walked directory targets, spelled relative to the working directory: the reported names start with the directory's name
     linecache.clearcache()
     C.take_log()
     if sc["relative"]:
         os.chdir(d)
     mgr = b_manager.BanditManager(b_config.BanditConfig(), sc["agg"])
-    mgr.discover_files(paths)
+    mgr.discover_files(paths, bool(sc.get("dirs")))
     mgr.run_tests()
     C.take_log()
     issues = []
@@ -904,7 +918,7 @@ def run_scenario(res, drv, sc, sid, combos):
         linecache.clearcache()
 
 
-def run(res, ctx):
+def _run_props(res, ctx):
     res.rule = ("scenario (generated source tree: B105/B101 findings quoting literals from the metacharacter alphabet, hostile file names, "
                 "multi-line ranges reported on a later line, file-level B613, skipped syntax-error file, mixed severities/confidences) "
                 "x format (json,yaml,csv,xml,sarif,html,custom) x context lines {0,1,3,10} x thresholds x aggregation (file|vuln) x user templates; "
@@ -949,3 +963,10 @@ def run(res, ctx):
     finally:
         if drv is not None:
             drv.close()
+
+
+def run(res, ctx):
+    import clirel
+    _run_props(res, ctx)
+    # relations between runs of the command-line tool that differ in one kind of option (harness/clirel.py): the relations this property owns
+    clirel.family(res, ctx, C, "C09", 150, 900)
